@@ -21,6 +21,7 @@ def run(ctx):
     c03.sticky_errors(ctx, P)
     stream.tee_writer(ctx, P)
     stream.fill_loops(ctx, P)
+    stream.interrupted_safe_fill(ctx, P)
     stream.zero_means_end(ctx, P)
     # every consumer path of Message ends through the trailing-data check (read / read_to_end / fill_buf agree)
     from rules import c03
